@@ -397,34 +397,44 @@ func field(out, key string) string {
 	return ""
 }
 
-// runRace: k goroutines create the same new name concurrently on the real service
+// runRace: k goroutines create the same new name concurrently on the real service; 40 rounds with a new name each on
+// one server (the window in which two creators both pass the first existence check is short: many cheap rounds); the
+// first round that does not end with exactly one success and the pipe present is reported, else the last round
 func runRace(k int) (int, bool, error) {
 	srv, err := StartServer(ServerOpts{NoRPC: true})
 	if err != nil {
 		return 0, false, err
 	}
 	defer srv.Stop()
-	var wg sync.WaitGroup
-	var mu sync.Mutex
-	succ := 0
-	start := make(chan struct{})
-	for i := 0; i < k; i++ {
-		wg.Add(1)
-		go func(i int) {
-			defer wg.Done()
-			<-start
-			_, e := srv.Pipes.CreatePipe(pipe.Pipe{Name: "racer", TagsCond: fmt.Sprintf("a=%d", i)})
-			if e == nil {
-				mu.Lock()
-				succ++
-				mu.Unlock()
-			}
-		}(i)
+	succ, present := 1, true
+	for round := 0; round < 40; round++ {
+		name := fmt.Sprintf("racer%d", round)
+		var wg sync.WaitGroup
+		var mu sync.Mutex
+		n := 0
+		start := make(chan struct{})
+		for i := 0; i < k; i++ {
+			wg.Add(1)
+			go func(i int) {
+				defer wg.Done()
+				<-start
+				_, e := srv.Pipes.CreatePipe(pipe.Pipe{Name: name, TagsCond: fmt.Sprintf("a=%d", i), FltCond: "msg contains \"a\" AND msg contains \"b\" AND ts > \"2019-01-01T00:00:00Z\""})
+				if e == nil {
+					mu.Lock()
+					n++
+					mu.Unlock()
+				}
+			}(i)
+		}
+		close(start)
+		wg.Wait()
+		_, e := srv.Pipes.GetPipe(name)
+		succ, present = n, e == nil
+		if n != 1 || e != nil {
+			break
+		}
 	}
-	close(start)
-	wg.Wait()
-	_, e := srv.Pipes.GetPipe("racer")
-	return succ, e == nil, nil
+	return succ, present, nil
 }
 
 // corpus: fixed histories that run first on every check: the ends of the OFFSET/LIMIT number ranges over a
